@@ -106,6 +106,50 @@ static MPT_INTERFACE(metatype) *fileClone(const MPT_INTERFACE(metatype) *mt)
 	}
 	return &c->_mt;
 }
+/* read next word and convert to number type */
+static int fileWord(FILE *fd, MPT_TYPE(type) type, void *val)
+{
+	char buf[256];
+	size_t len = 0;
+	int c, ret;
+	
+	/* skip leading white space */
+	while ((c = fgetc(fd)) >= 0 && isspace(c));
+	if (c < 0) {
+		return EOF;
+	}
+	do {
+		/* no truncated numbers */
+		if (len >= sizeof(buf) - 1) {
+			return MPT_ERROR(BadValue);
+		}
+		buf[len++] = c;
+	} while ((c = fgetc(fd)) >= 0 && !isspace(c));
+	if (c >= 0) {
+		ungetc(c, fd);
+	}
+	buf[len] = 0;
+	
+	/* same number format as scanf(), but with range checks */
+	switch (type) {
+	  case 'd': ret = mpt_cdouble(val, buf, 0); break;
+	  case 'f': ret = mpt_cfloat (val, buf, 0); break;
+	  case 't': ret = mpt_cuint64(val, buf, 10, 0); break;
+	  case 'x': ret = mpt_cint64 (val, buf,  0, 0); break;
+	  case 'u': ret = mpt_cuint32(val, buf, 10, 0); break;
+	  case 'i': ret = mpt_cint32 (val, buf,  0, 0); break;
+	  case 'q': ret = mpt_cuint16(val, buf, 10, 0); break;
+	  case 'n': ret = mpt_cint16 (val, buf,  0, 0); break;
+	  case 'y': ret = mpt_cuint8 (val, buf, 10, 0); break;
+	  case 'b': ret = mpt_cint8  (val, buf,  0, 0); break;
+	  default: return MPT_ERROR(BadType);
+	}
+	/* no number in word */
+	if (ret == MPT_ERROR(BadType)) {
+		return 0;
+	}
+	return ret < 0 ? ret : 1;
+}
 /* element convertable interface */
 static int fileGet(MPT_INTERFACE(convertable) *conv, MPT_TYPE(type) type, void *ptr)
 {
@@ -122,21 +166,30 @@ static int fileGet(MPT_INTERFACE(convertable) *conv, MPT_TYPE(type) type, void *
 	}
 	if (!d->type) {
 		size_t len;
-		switch (type) {
-		  case 'd': ret = fscanf(d->fd, "%lf",      (double *)   d->val); len = sizeof(double);   break;
-		  case 'f': ret = fscanf(d->fd, "%f",       (float *)    d->val); len = sizeof(float);    break;
-		  case 't': ret = fscanf(d->fd, "%" SCNu64, (uint64_t *) d->val); len = sizeof(uint64_t); break;
-		  case 'x': ret = fscanf(d->fd, "%" SCNi64, (int64_t *)  d->val); len = sizeof(int64_t);  break;
-		  case 'u': ret = fscanf(d->fd, "%" SCNu32, (uint32_t *) d->val); len = sizeof(uint32_t); break;
-		  case 'i': ret = fscanf(d->fd, "%" SCNi32, (int32_t *)  d->val); len = sizeof(int32_t);  break;
-		  case 'q': ret = fscanf(d->fd, "%" SCNu16, (uint16_t *) d->val); len = sizeof(uint16_t); break;
-		  case 'n': ret = fscanf(d->fd, "%" SCNi16, (int16_t *)  d->val); len = sizeof(int16_t);  break;
-# if __STDC_VERSION__ >= 199901L
-		  case 'y': ret = fscanf(d->fd, "%" SCNu8,  (uint8_t *)  d->val); len = sizeof(uint8_t);  break;
-		  case 'b': ret = fscanf(d->fd, "%" SCNi8,  (int8_t *)   d->val); len = sizeof(int8_t);   break;
-#endif
-		  case 'c': ret = fscanf(d->fd, "%c",       (char *)     d->val); len = sizeof(char);     break;
-		  default: return MPT_ERROR(BadType);
+		if (type == 'c') {
+			ret = fscanf(d->fd, "%c", (char *) d->val);
+			len = sizeof(char);
+		}
+		else {
+			switch (type) {
+			  case 'd': len = sizeof(double);   break;
+			  case 'f': len = sizeof(float);    break;
+			  case 't': len = sizeof(uint64_t); break;
+			  case 'x': len = sizeof(int64_t);  break;
+			  case 'u': len = sizeof(uint32_t); break;
+			  case 'i': len = sizeof(int32_t);  break;
+			  case 'q': len = sizeof(uint16_t); break;
+			  case 'n': len = sizeof(int16_t);  break;
+			  case 'y': len = sizeof(uint8_t);  break;
+			  case 'b': len = sizeof(int8_t);   break;
+			  default: return MPT_ERROR(BadType);
+			}
+			/* range checked conversion of next word */
+			if ((ret = fileWord(d->fd, type, d->val)) < 0
+			 && ret != EOF) {
+				d->type = -1;
+				return ret;
+			}
 		}
 		if (!ret) {
 			d->type = -1;
